@@ -525,8 +525,8 @@ class IntConverter(Converter):
             throw(ValueError, "'min' argument should be greater or equal to %d because of size=%d and unsigned=%s. "
                               "Got: %d" % (lowest, size, min_val, unsigned))
 
-        converter.min_val = min_val or lowest
-        converter.max_val = max_val or highest
+        converter.min_val = min_val if min_val is not None else lowest
+        converter.max_val = max_val if max_val is not None else highest
         converter.size = size
         converter.unsigned = unsigned
     def validate(converter, val, obj=None):
@@ -582,10 +582,10 @@ class RealConverter(Converter):
         try: val = float(val)
         except ValueError:
             throw(TypeError, 'Invalid value for attribute %s: %r' % (converter.attr, val))
-        if converter.min_val and val < converter.min_val:
+        if converter.min_val is not None and val < converter.min_val:
             throw(ValueError, 'Value %r of attr %s is less than the minimum allowed value %r'
                              % (val, converter.attr, converter.min_val))
-        if converter.max_val and val > converter.max_val:
+        if converter.max_val is not None and val > converter.max_val:
             throw(ValueError, 'Value %r of attr %s is greater than the maximum allowed value %r'
                              % (val, converter.attr, converter.max_val))
         return val
